@@ -1900,6 +1900,22 @@ class Ev:
             if name == "float" and len(args) == 1:
                 return args[0]
             return Term(name, args)
+        if name in ("min", "max") and (kwargs.get("key") is not None or (len(args) >= 1 and not all(isinstance(x, (int, float)) for x in (args[0].items if len(args) == 1 and isinstance(args[0], ListV) else args)))) and (len(args) > 1 or isinstance(args[0], ListV)) and not any(isinstance(a, (Sym, Term)) for a in args):
+            # the extreme element under the order the comparisons (an oracle of the case, or constants) decide;
+            # the first one on ties, as in Python
+            items = list(args[0].items) if len(args) == 1 else list(args)
+            if not items:
+                if "default" in kwargs:
+                    return kwargs["default"]
+                raise _Raise(e, "%s() of an empty collection" % name, "ValueError")
+            keyf = kwargs.get("key")
+            keys = [x if keyf is None or keyf is NONE else self.apply(keyf, [x], {}, e, None) for x in items]
+            best = 0
+            for i in range(1, len(items)):
+                better = self.compare(ast.Lt() if name == "min" else ast.Gt(), keys[i], keys[best], e)
+                if self.truth(better, e):
+                    best = i
+            return items[best]
         if name in ("min", "max") and len(args) == 1 and isinstance(args[0], ListV):
             items = args[0].items
             if items and all(isinstance(x, (int, float)) and not isinstance(x, bool) for x in items):
